@@ -10,8 +10,12 @@
 //! References to lineage nodes in a case: 0 = FALSE, 1 = TRUE, j+2 = result of operation j.
 use serde_json::{json, Value};
 use shared::hybrid::*;
+use datalog::reasoning::Reasoner;
+use shared::rule::Rule;
 use shared::seed_spec::{ExclusiveChoice, SeedSpec};
+use shared::terms::Term;
 use shared::triple::Triple;
+use std::collections::BTreeSet;
 use std::collections::BTreeMap;
 use std::panic::AssertUnwindSafe;
 use std::sync::atomic::{AtomicU64, Ordering};
@@ -256,11 +260,79 @@ fn compile_call(store: &LineageStore, seeds: &SeedSnapshot, root: LineageId, cfg
     (v, clock.readings())
 }
 
+fn term(v: &Value, enc: &mut dyn FnMut(u64) -> u32) -> Term {
+    match v.as_u64() {
+        Some(c) => Term::Constant(enc(c)),
+        None => Term::Variable(v.as_str().unwrap().to_string()),
+    }
+}
+
+fn patterns(v: &Value, enc: &mut dyn FnMut(u64) -> u32) -> Vec<(Term, Term, Term)> {
+    v.as_array().map(|ps| ps.iter().map(|p| (term(&p[0], enc), term(&p[1], enc), term(&p[2], enc))).collect()).unwrap_or_default()
+}
+
+/// End-to-end: Reasoner::infer_new_facts_with_hybrid on seed facts + rules; for every derived fact the result and
+/// the part of the real lineage DAG below its lineage handle (so that the oracle can compute the true probability
+/// of exactly the formula that was evaluated).
+fn e2e(case: &Value) -> Value {
+    let facts = case["facts"].as_array().unwrap();
+    let mut reasoner = Reasoner::new();
+    // constants must be dictionary terms: the rule engine joins on decoded strings
+    let dict = reasoner.dictionary.clone();
+    let mut enc = move |n: u64| -> u32 { dict.write().unwrap().encode(&format!("http://e/{}", n)) };
+    let mut specs = Vec::new();
+    for (i, f) in facts.iter().enumerate() {
+        let triple = Triple { subject: enc(f[0].as_u64().unwrap()), predicate: enc(f[1].as_u64().unwrap()), object: enc(f[2].as_u64().unwrap()) };
+        specs.push(SeedSpec::Independent { triple, prob: f[3].as_f64().unwrap() / f[4].as_f64().unwrap(), seed_id: i as u32 });
+    }
+    let snapshot = match SeedSnapshot::from_seed_specs(&specs) {
+        Ok(s) => s,
+        Err(e) => return json!({"error": format!("{}", e)}),
+    };
+    for r in case["rules"].as_array().unwrap() {
+        reasoner.add_rule(Rule { premise: patterns(&r["premise"], &mut enc), negative_premise: patterns(&r["negative"], &mut enc), filters: vec![], conclusion: patterns(&r["conclusion"], &mut enc) });
+    }
+    let cfg = config(&case["cfg"]);
+    match reasoner.infer_new_facts_with_hybrid(snapshot, &cfg) {
+        Err(e) => json!({"error": format!("{}", e)}),
+        Ok((new_facts, results, mat)) => {
+            let prov = mat.tags.provenance();
+            let store = prov.store().lock().unwrap();
+            let mut out = Vec::new();
+            for t in &new_facts {
+                let root = mat.lineage(t);
+                let mut nodes: BTreeMap<u32, Value> = BTreeMap::new();
+                let mut stack = vec![root];
+                let mut seen: BTreeSet<u32> = BTreeSet::new();
+                while let Some(id) = stack.pop() {
+                    if !seen.insert(id.get()) { continue; }
+                    let v = match store.node(id) {
+                        LineageNode::False => json!(["F"]),
+                        LineageNode::True => json!(["T"]),
+                        LineageNode::Literal(s) => json!(["L", s.get()]),
+                        LineageNode::Not(c) => { stack.push(*c); json!(["N", c.get()]) }
+                        LineageNode::And(cs) => { stack.extend(cs.iter().copied()); json!(["A", cs.iter().map(|c| c.get()).collect::<Vec<_>>()]) }
+                        LineageNode::Or(cs) => { stack.extend(cs.iter().copied()); json!(["O", cs.iter().map(|c| c.get()).collect::<Vec<_>>()]) }
+                    };
+                    nodes.insert(id.get(), v);
+                }
+                let res = results.get(t).map(render).unwrap_or(json!(null));
+                out.push(json!({"triple": [t.subject, t.predicate, t.object], "root": root.get(),
+                                "nodes": nodes.into_iter().map(|(k, v)| json!([k, v])).collect::<Vec<_>>(), "result": res}));
+            }
+            json!({"facts": out})
+        }
+    }
+}
+
 fn main() {
     vharness::quiet_panics();
     vharness::run_cases(|case| {
         let case = case.clone();
         let r = vharness::catch(AssertUnwindSafe(move || {
+            if case["e2e"].as_bool().unwrap_or(false) {
+                return e2e(&case);
+            }
             let ops = case["ops"].as_array().cloned().unwrap_or_default();
             let built = build(&ops);
             let mut out = json!({});
